@@ -12,6 +12,7 @@ NEGS = {"NEG_stop_ForcedReach.cfg": ["NEG_ForcedNeverCompletesWithLive"],       
         "NEG_stop_GracefulSkipsAwait.cfg": ["C06_GracefulWaits"],
         "NEG_stop_CompleteBeforeJoin.cfg": ["C06_NoDispatchAfterCompletion", "Steps"],
         "NEG_stop_TermIsForced.cfg": ["C06_SignalKinds"],
+        "NEG_stop_AwaitsLastWorkerOnly.cfg": ["C06_GracefulWaits"],
         "NEG_stop_SecondStopHangs.cfg": ["temporal"]}
 
 
